@@ -216,29 +216,51 @@ def r3(ctx):
              "_cookiejar:SimpleCookieJar.get": lambda I, run, a, k, n: C(""), "_cookiejar:SimpleCookieJar.add": lambda *a: NONE}
     I = Interp(idx, Config(stubs=stubs))
     q = "_handshake:handshake"
+    from ..models import BASE_STUBS, mk_websocket
+    stubs_c = dict(BASE_STUBS)
+    stubs_c.update(stubs)
+    stubs_c["_http:connect"] = lambda I_, run, a, k, n: Tup((Sym("sock", "obj"), Tup((Sym("host", "str"), C(80), Sym("resource", "str")))))
+    stubs_c["_http:proxy_info"] = lambda I_, run, a, k, n: Sym("px")
+    Ic = Interp(idx, Config(stubs=stubs_c))
     for variant in ("generated", "caller-key"):
-        def body(run, variant=variant):
-            kw = {}
+      for via in ("handshake", "WebSocket.connect"):
+        def body(run, variant=variant, via=via):
+            kw = {"subprotocols": new_list(run, [C("chat"), C("v2")])}
+            run.memo["@offered"] = kw["subprotocols"]
             if variant == "caller-key":
                 kw["header"] = new_dict(run, {"Sec-WebSocket-Key": Sym("callerkey", "str")}, False, "hdr")
-            return I.call(run, I.make_fn(run, q), [Sym("sock", "obj"), C("ws://h/"), Sym("host", "str"), C(80), Sym("resource", "str")], kw, None)
-        outs = ctx.count_paths(I.explore(body))
+            if via == "handshake":
+                return I.call(run, I.make_fn(run, q), [Sym("sock", "obj"), C("ws://h/"), Sym("host", "str"), C(80), Sym("resource", "str")], kw, None)
+            # the way applications get there: options travel through WebSocket.connect unchanged
+            ws = mk_websocket(Ic, run)
+            return Ic.call(run, Ic.getattr(run, ws, "connect", None), [C("ws://h/")], kw, None)
+        outs = ctx.count_paths((I if via == "handshake" else Ic).explore(body))
         for o in outs:
             if o.kind != "return":
                 continue
             sends = [e for e in o.effects if e.name == "send"]
             vals = [e for e in o.effects if e.name == "_validate"]
             if len(sends) != 1 or len(vals) != 1:
-                ctx.ob(f"{q}:{variant}:one-send-one-validate", False, f"{len(sends)} sends, {len(vals)} validations", "")
+                ctx.ob(f"{q}:{variant}:{via}:one-send-one-validate", False, f"{len(sends)} sends, {len(vals)} validations", "")
                 continue
             key = vals[0].args[1]
             sent = template_text(sends[0].args[0])
             want = "{<freshkey1>}" if variant == "generated" else "{<callerkey>}"
-            ok = f"Sec-WebSocket-Key: {want}" in sent and repr(key) == want.strip("{}")
-            nk = len([e for e in o.effects if e.name == "newkey"])
-            ctx.ob(f"{q}:{variant}:validated-key-is-sent-key", ok,
-                   f"request carries Sec-WebSocket-Key: {want}, _validate receives {key!r}" if ok else
-                   f"_validate receives {key!r} but the request says {[l for l in sent.split(chr(13) + chr(10)) if 'Key' in l]}", vals[0].loc)
+            keylines = [l for l in sent.split(chr(13) + chr(10)) if l.lower().startswith("sec-websocket-key")]
+            ok = keylines == [f"Sec-WebSocket-Key: {want}"] and repr(key) == want.strip("{}")
+            ctx.ob(f"{q}:{variant}:{via}:validated-key-is-sent-key", ok,
+                   f"request carries Sec-WebSocket-Key: {want} (once), _validate receives {key!r}" if ok else
+                   f"_validate receives {key!r} but the request says {keylines}: the key validated must be the one key the request carries", vals[0].loc, {"path": path_text(o)})
+            # the subprotocols offered are the ones the answer is checked against
+            off = o.run.memo.get("@offered")
+            sp = vals[0].args[2] if len(vals[0].args) > 2 else vals[0].kwargs.get("subprotocols")
+            oks = isinstance(sp, Ref) and isinstance(off, Ref) and sp.addr == off.addr and "Sec-WebSocket-Protocol: chat,v2" in sent \
+                and [I.resolve(o.run, x) for x in o.run.cell(off).items] == [C("chat"), C("v2")]
+            ctx.ob(f"{q}:{variant}:{via}:offered-subprotocols-are-validated", oks,
+                   "the list offered in the request is the list _validate receives" if oks else
+                   f"subprotocols ['chat', 'v2'] are offered but _validate receives {sp!r} "
+                   f"(offered list now {[repr(x) for x in o.run.cell(off).items] if isinstance(off, Ref) else off!r}): a response naming no / another subprotocol is accepted", vals[0].loc,
+                   {"path": path_text(o)})
 
 
 def _connect_paths(ctx, limit):
@@ -420,4 +442,39 @@ def r6(ctx):
             ctx.ob(f"{q}:status-token:{tok!r}:{'reason' if rest else 'bare'}", ok, msg if ok else
                    f"status line {first!r}: read_headers gives {msg}; " + ("the status is the three digits given" if wellformed else
                    "only the three ASCII digits 101 are status 101 -- this token is not a 101 response and must not be read as one"), loc, {"path": path_text(o)})
+
+
+@rule("R-C09-7", min_instances=1, title="a response line is complete or nothing: when the stream ends inside a line, recv_line raises (a partial line is never handed to the header parser as if it were a line)")
+def r7(ctx):
+    idx = ctx.index
+    q = "_socket:recv_line"
+    loc = idx.loc(idx.func(q).node)
+
+    def rc(I, run, args, kwargs, node):
+        k = len([e for e in run.effects if e.name == "recv1"])
+        ch = run.choose(3, I.locof(node), f"byte #{k}: ordinary byte / line feed / end of stream")
+        run.effect("recv1", args[1:], {"eof": TRUE} if ch == 2 else {}, node=node)
+        if ch == 2:
+            raise RaiseSig(run.alloc(HObj(CLOSED_EXC, {"args": Tup(())})), node)
+        return C(b"\n") if ch == 1 else Sym(f"byte{k}", "bytes")
+
+    from ..rulekit import CLOSED_EXC
+    I = Interp(idx, Config(stubs={"_socket:recv": rc}, loop_unroll=4))
+    outs = ctx.count_paths(I.explore(lambda run: I.call(run, I.make_fn(run, q), [Sym("sock", "obj")], {}, None)))
+    n = 0
+    bad = None
+    for o in outs:
+        if o.kind == "cutoff":
+            continue
+        eof = any("eof" in e.kwargs for e in o.effects)
+        if eof:
+            n += 1
+            if o.kind != "raise":
+                bad = bad or o
+    if n == 0:
+        raise AnalysisError("end of stream inside a line not explored")
+    ctx.ob(f"{q}:eof-inside-a-line-raises", bad is None, f"{n} paths: the connection-closed exception propagates" if bad is None else
+           f"the stream ends after {len([e for e in bad.effects if e.name == 'recv1']) - 1} byte(s) of a line and recv_line returns {bad.value!r}: read_headers takes the "
+           f"fragment for a complete line (a lone '\\r' reads as the blank line that ends the response head) and a truncated response is accepted", loc,
+           {"path": path_text(bad)} if bad else None)
 
